@@ -113,6 +113,35 @@ func VideoFrame(r *rand.Rand, inc, idx int, key bool, cts int, size int) []byte 
 	return b
 }
 
+// VideoFrameCodec is VideoFrame for the codec of a Shape.
+func VideoFrameCodec(r *rand.Rand, codec string, inc, idx int, key bool, cts int, size int) []byte {
+	if codec == "" {
+		return VideoFrame(r, inc, idx, key, cts, size)
+	}
+	if size < 30 {
+		size = 30
+	}
+	ft := byte(2)
+	nalType := byte(1)
+	if key {
+		ft, nalType = 1, 19
+	}
+	var b []byte
+	switch {
+	case codec == "hevc":
+		b = []byte{ft<<4 | 12, 1, byte(cts >> 16), byte(cts >> 8), byte(cts)}
+	case cts != 0:
+		b = []byte{0x80 | ft<<4 | 1, 'h', 'v', 'c', '1', byte(cts >> 16), byte(cts >> 8), byte(cts)}
+	default:
+		b = []byte{0x80 | ft<<4 | 3, 'h', 'v', 'c', '1'}
+	}
+	n := size - len(b) - 4
+	b = append(b, byte(n>>24), byte(n>>16), byte(n>>8), byte(n), nalType<<1, 1)
+	b = append(b, Tag(inc, idx)...)
+	b = append(b, fill(r, size-len(b))...)
+	return b
+}
+
 func AudioFrame(r *rand.Rand, inc, idx int, size int) []byte {
 	return AudioFrameCodec(r, inc, idx, size, "")
 }
@@ -152,6 +181,8 @@ type Shape struct {
 	Empties     bool // zero-length messages sprinkled in
 	TsMode      int  // 0 monotonic small; 1 across 0xFFFFFF; 2 near 2^32; 3 non-monotonic jitter
 	Sizes       []int
+	VideoCodec  string // "" = avc, "hevc" (classic codec id 12), "hevc-enh" (enhanced RTMP, 'hvc1'; frames without composition offset travel as CodedFramesX)
+	NoCts       bool   // never use composition offsets (enhanced HEVC: every frame, key frames included, is a CodedFramesX packet)
 }
 
 // Build generates the publish list for one incarnation.
@@ -191,7 +222,11 @@ func BuildAt(r *rand.Rand, inc int, sh Shape, base int) []PubMsg {
 			out[meta-base].MetaIdx = meta
 		}
 		if sh.Video {
-			add(Vsh, 9, AvcSeqHeader(inc, hdrVer), false)
+			if sh.VideoCodec == "" {
+				add(Vsh, 9, AvcSeqHeader(inc, hdrVer), false)
+			} else {
+				add(Vsh, 9, HevcSeqHeader(inc, hdrVer, sh.VideoCodec == "hevc-enh"), false)
+			}
 			vsh = base + len(out) - 1
 			out[vsh-base].VshIdx = vsh
 		}
@@ -218,14 +253,14 @@ func BuildAt(r *rand.Rand, inc int, sh Shape, base int) []PubMsg {
 					gop++
 				}
 				cts := 0
-				if r.Intn(4) == 0 {
+				if r.Intn(4) == 0 && !sh.NoCts {
 					cts = r.Intn(200)
 				}
 				k := Inter
 				if key {
 					k = Key
 				}
-				add(k, 9, VideoFrame(r, inc, base+len(out), key, cts, size()), false)
+				add(k, 9, VideoFrameCodec(r, sh.VideoCodec, inc, base+len(out), key, cts, size()), false)
 			}
 			for a := 0; a < sh.AudioPerVid && sh.Audio; a++ {
 				add(Audio, 8, AudioFrameCodec(r, inc, base+len(out), 14+r.Intn(300), sh.AudioCodec), false)
